@@ -264,7 +264,7 @@ Theorem C02_primitive_models_use_the_interface :
      ag_iface_upd (Event.eag (Event.est g) u) (Event.eag (Event.est (fst (Event.e_tstep o t g l))) u)) /\
   (forall o t g l u,
      ag_iface_upd (Event.eag (Once.oev g) u) (Event.eag (Once.oev (fst (Once.o_tstep o t g l))) u)) /\
-  (forall lp tgt x t g l u, ag_iface_upd (Join.ag g u) (Join.ag (fst (Join.tstep lp tgt x t g l)) u)).
+  (forall lp pf tgt x t g l u, ag_iface_upd (Join.ag g u) (Join.ag (fst (Join.tstep lp pf tgt x t g l)) u)).
 Proof. exact AgentUseProofs.primitive_models_use_the_interface. Qed.
 Print Assumptions C02_primitive_models_use_the_interface.
 
